@@ -544,6 +544,14 @@ fn answer(a: &[&str]) -> String {
                 match v.to_float64() { Ok(x) => format!("OK {} {}", x.to_bits(), w64.map(|b| b.to_string()).unwrap_or("-".into())), Err(_) => "ERR".into() }
             }
         }
+        // json_de <hex of a JSON document> -> "OK" | "ERR <message>" (main() answers "PANIC" when deserialisation panics)
+        "json_de" => {
+            let text = String::from_utf8(unhex(a[1])).unwrap();
+            match dicom_json::from_str::<dicom_object::InMemDicomObject>(&text) {
+                Ok(_) => "OK".into(),
+                Err(e) => format!("ERR {}", e).replace(' ', "_").replacen('_', " ", 1),
+            }
+        }
         // c04_tokens codec default|nochange token... -> "N - <hex of the stream>"
         //   tokens: S:gggg,eeee,len  I:len  i  s  P  E:gggg,eeee,US,v,v..  E:gggg,eeee,VR,texthex  F:hex  O:n,n
         "c04_tokens" => {
